@@ -12,7 +12,7 @@ RUN_FN = "run_case"
 HARNESS_BIN = "c17"
 HARNESS_BINS = ["c17"]
 SHRINK_KEEP = ("sni",)
-CLAIMED = False
+CLAIMED = True
 RULE = ("cases: histories of 1-14 add / remove / replace over a committed pool of 10 certificates (openssl; overlapping "
         "exact and wildcard SANs, CN-only, distinct notAfter) with operator name overrides and expiry overrides drawn "
         "from small colliding pools (equal expiries included), idempotent replaces, replaces of absent / unparsable old "
